@@ -20,7 +20,9 @@ RULE = ('family A: every one of the 4096 subsets of the 12 documented modifiers 
         'quote, newline); B: every special_formats key, every public zero-argument str method and '
         'C-style fmt= strings x modifier subsets; C: size 0..8 x etc; D: null/missing/url; '
         'E: expressions over x; F: where the value comes from (kw, mapping, client attribute, '
-        'callable, taintWrapper mapping, sequence-item, let alias); G: %(x)<C-format> suffixes. '
+        'callable, taintWrapper mapping, sequence-item, let alias, and stored on a template: constructor keyword / '
+        'constructor mapping / var() variable, also through copy.copy of that template, a new object given its state, '
+        'and a copy made after a render); G: %(x)<C-format> suffixes. '
         'A case is distinct by (family, syntax, written modifier list, value, surrounding text, '
         'expression, source kind, guard, fmt, C-format, size, etc, null, missing, url) and '
         'non-trivial when the engine produced an output for a value that is marked when it '
@@ -47,7 +49,7 @@ ETCS = [None, '', '..', 'ETC']
 EXPRS = list(U.EXPR_MARKED)
 MULTI = '<ab<c_D<'          # several marks: first, middle, last character
 NR = len(U.RICH) + 1
-CTXS = ['kw', 'mapping', 'client', 'callable', 'taintwrapper', 'in', 'let']
+CTXS = ['kw', 'mapping', 'client', 'callable', 'taintwrapper', 'in', 'let'] + list(U.STORED_CTXS)
 
 
 def plan(tier, seed):
